@@ -731,7 +731,7 @@ def directed_cases(rng):
     out = []
     idx = 100000
 
-    def case(kind, N, C, sp, steps, axes="WORLD"):
+    def case(kind, N, C, sp, steps, axes="WORLD", other_axes=None):
         nonlocal idx
         c = new_case(rng, idx)
         idx += 1
@@ -741,7 +741,7 @@ def directed_cases(rng):
         c["cur"] = {"kind": kind, "shape": ([N, C] if kind in ("B", "F") else [C]) + sp, "grids": list(range(N if kind in ("B", "F") else 1)), "axes": axes}
         g0 = N if kind in ("B", "F") else 1
         if kind in ("B", "F"):
-            c["inputs"] = [{"kind": kind, "shape": [2, C] + sp, "grids": [g0, g0 + 1], "axes": axes},
+            c["inputs"] = [{"kind": kind, "shape": [2, C] + sp, "grids": [g0, g0 + 1], "axes": other_axes or axes},
                            {"kind": kind, "shape": [N, C] + sp, "grids": list(range(g0 + 2, g0 + 2 + N)), "axes": axes},
                            {"kind": "P", "shape": [N, C] + sp, "grids": [], "axes": axes}]
         else:
@@ -810,6 +810,24 @@ def directed_cases(rng):
             ]
             for s in ops:
                 case(kind, N, C if kind == "B" else len(sp), sp, [s])
+    # copies of VIEWS: sub-batches, items, iteration items, split chunks, channel slices are views into the storage of the batch
+    views = [S({"op": "getitem", "tuple": False, "ix": [{"t": "slice", "a": 1, "b": 3, "c": None}]}),
+             S({"op": "getitem", "tuple": False, "ix": [{"t": "int", "v": 2}]}),
+             S({"op": "iter_pick", "k": 2}),
+             S({"op": "split", "size": 1, "d": {"k": "none"}, "fn": "func"}, pick=2),
+             S({"op": "getitem", "tuple": True, "ix": [{"t": "slice", "a": None, "b": None, "c": None}, {"t": "slice", "a": 1, "b": 2, "c": None}]}),
+             S({"op": "narrow_method", "dim": 0, "start": 1, "len": 2})]
+    for kind in ("B", "F"):
+        for v in views:
+            for fn in ("pickle", "deepcopy", "copy"):
+                case(kind, 4, 2, [3, 4], [v, S({"op": "copy", "fn": fn})])
+                if v["op"]["op"] in ("getitem", "iter_pick") and (v["op"].get("ix", [{}])[0].get("t") == "int" or v["op"]["op"] == "iter_pick"):
+                    out[-1]["steps"][1]["cur_shape"] = out[-1]["cur"]["shape"][1:]
+    # joining flow fields that are expressed in different axes (anisotropic grids: the conversion matters)
+    for ax, ox in (("WORLD", "CUBE_CORNERS"), ("GRID", "CUBE"), ("CUBE", "WORLD"), ("CUBE_CORNERS", "GRID")):
+        for sp in ([3, 4], [2, 3, 4]):
+            case("F", 3, 2, sp, [S({"op": "append"}, ("cur", 0))], axes=ax, other_axes=ox)
+            case("F", 3, 2, sp, [S({"op": "append"}, (0, "cur"))], axes=ax, other_axes=ox)
     # empty batches: slicing to N = 0, then operations on / with the empty batch
     empty = S({"op": "getitem", "tuple": False, "ix": [{"t": "slice", "a": 0, "b": 0, "c": None}]})
     for kind in ("B", "F"):
@@ -885,19 +903,19 @@ MANIFEST_ENTRY = {
     "text": "Coq theorems (closed under the global context) about a provenance semantics of the torch operation family and a "
             "transcription of the grid bookkeeping of data/image.py, data/flow.py, data/tensor.py, data/collate.py, for EVERY batch "
             "size, grid assignment, shape and argument: (1) every single-operand operation reaching the generic branch of "
-            "ImageBatch.__torch_function__ that does not reorder/mix the batch dimension yields either a plain tensor or a batch with "
-            "exactly one grid per entry, of the data's spatial shape, entry i carrying the grid of the operand entry whose data it "
-            "holds, and never raises where the plain operation succeeds; a result whose batch size / ndim / spatial shape no longer "
-            "matches is a plain tensor; (2) torch.cat along the batch dimension of any number of batches; (3) __getitem__ for every "
-            "int / slice / index-list form incl. tuples with ellipses (ImageBatch and FlowFields), __iter__, deepcopy / pickle / copy; "
-            "(4) closure under programs of any length by induction over the operation list (ghost item provenance); (5) _refuted "
-            "witnesses for 16 defective forms (batch reordering / mixing, split sizes, tensor_split sections, split along other dims, "
-            "batch[...], masks, narrow method, FlowFields batch size / split / copy / from_images axes). Tie: translator unit BatchTables "
-            "(Python-ast extraction of the dispatcher's function tables, typing conditions and fingerprints of all transcribed methods, "
+            "ImageBatch.__torch_function__ and FlowFields.__torch_function__ that does not reorder/mix the batch dimension yields a "
+            "plain tensor or a batch with exactly one grid per entry, of the data's spatial shape, entry i carrying the grid (and axes) "
+            "of the operand entry whose data it holds, never raising where the plain operation succeeds; (2) elementwise operations "
+            "with two tensor operands (both classes, plain tensors, broadcasting); (3) torch.cat along any dimension, torch.stack, "
+            "split / split_with_sizes / tensor_split (sections and indices) along any dimension; (4) __getitem__ for every form, "
+            "narrow method, __iter__, from_images / collate of any selection, append, copy / deepcopy / pickle; (5) the Image / FlowField "
+            "dispatchers; (6) closure under programs of any length by induction (syntactic family and general form); (7) _refuted "
+            "witnesses for the two design decisions kept by the maintainers (batch reordering / mixing with unchanged shape). Tie: "
+            "translator unit BatchTables (function tables, dim resolution, typing conditions, fingerprints of all transcribed methods, "
             "proved equal to the pinned ones) + correspondence on adaptively generated programs of 1-3 operations (type, grid ids, axes, "
-            "shape and measured per-entry provenance compared exactly inside Coq).",
-    "note": "Partial: binary operations with a second tensor, cat along other dims, stack, split(int)/tensor_split(indices) along the batch "
-            "dim, from_images/append/collate, the FlowFields and single Image/FlowField dispatchers and ImageBatch.sample are modelled and "
-            "tied by the correspondence and evaluated on the implementation, but have no soundness theorem. Trusted: torch's shape/index "
-            "semantics as modelled in data_sem (validated per run by one-hot provenance probes), torch's override selection, Coq kernel.",
+            "shape and measured per-entry provenance compared exactly inside Coq) + value oracles on the real data (copies of views, "
+            "converted flow vectors, result shape vs the plain operation).",
+    "note": "No theorem (correspondence + implementation-side evaluation only): cat / split of FlowFields, n-ary operations mixing single "
+            "images and batches, ImageBatch.sample, the values of converted flow vectors. Trusted: torch's shape/index semantics as modelled "
+            "in data_sem (validated per run by one-hot provenance probes), torch's override selection, Coq kernel.",
 }
